@@ -291,6 +291,9 @@ class ExprMixin:
         if t is None:
             from .interp import implied
             t = implied(tv0, st.conds)
+        if t is None and getattr(self, 'comp_depth', 0):
+            # inside a comprehension the choice is made per element: a value, not a branch of the path
+            return app('ifexp', P(tv0), P(self.eval(node.body, st)), P(self.eval(node.orelse, st)))
         if t is None:
             ch = st.choices.get(id(node))
             if ch is None:
@@ -381,10 +384,12 @@ class ExprMixin:
             for cond in gen.ifs:
                 self.eval(cond, sub)
         self.loop_depth += 1
+        self.comp_depth = getattr(self, 'comp_depth', 0) + 1
         try:
             elts = [self.eval(e, sub) for e in elt_nodes]
         finally:
             self.loop_depth -= 1
+            self.comp_depth -= 1
         return app(kind, *elts, *iters)
 
     def assign_target_expr(self, target, value, st, node):
